@@ -1494,7 +1494,8 @@ func (e *CoreExtension) filterReverse(value interface{}, args ...interface{}) (i
 		return string(runes), nil
 	case reflect.Array, reflect.Slice:
 		// Create a new slice with the same type
-		resultSlice := reflect.MakeSlice(rv.Type(), rv.Len(), rv.Len())
+		// rv may be an array: build the result as a slice of its element type
+		resultSlice := reflect.MakeSlice(reflect.SliceOf(rv.Type().Elem()), rv.Len(), rv.Len())
 		for i, j := 0, rv.Len()-1; j >= 0; i, j = i+1, j-1 {
 			resultSlice.Index(i).Set(rv.Index(j))
 		}
@@ -1643,42 +1644,58 @@ func (e *CoreExtension) filterKeys(value interface{}, args ...interface{}) (inte
 }
 
 func (e *CoreExtension) filterMerge(value interface{}, args ...interface{}) (interface{}, error) {
-	// Handle merging arrays/slices
+	// Handle merging arrays/slices. The operands may have different element types
+	// ([]string merged with a template literal, which is []interface{}), so the
+	// result is always a fresh []interface{}.
 	rv := reflect.ValueOf(value)
 	if rv.Kind() == reflect.Slice || rv.Kind() == reflect.Array {
-		result := reflect.MakeSlice(rv.Type(), rv.Len(), rv.Len())
-
-		// Copy original values
+		result := make([]interface{}, 0, rv.Len())
 		for i := 0; i < rv.Len(); i++ {
-			result.Index(i).Set(rv.Index(i))
+			result = append(result, rv.Index(i).Interface())
 		}
 
 		// Add values from the arguments
 		for _, arg := range args {
 			argRv := reflect.ValueOf(arg)
 			if argRv.Kind() == reflect.Slice || argRv.Kind() == reflect.Array {
-				// Create a new slice with expanded capacity
-				newResult := reflect.MakeSlice(rv.Type(), result.Len()+argRv.Len(), result.Len()+argRv.Len())
-
-				// Copy existing values
-				for i := 0; i < result.Len(); i++ {
-					newResult.Index(i).Set(result.Index(i))
-				}
-
-				// Append the new values
 				for i := 0; i < argRv.Len(); i++ {
-					newResult.Index(result.Len() + i).Set(argRv.Index(i))
+					result = append(result, argRv.Index(i).Interface())
 				}
-
-				result = newResult
 			}
 		}
 
-		return result.Interface(), nil
+		return result, nil
 	}
 
 	// Handle merging maps
 	if rv.Kind() == reflect.Map {
+		// When every map to merge has the type of the first one the result keeps that
+		// type; otherwise (map[string]int merged with a template hash literal, which is
+		// map[string]interface{}) the result is a map[string]interface{}.
+		sameType := true
+		for _, arg := range args {
+			argRv := reflect.ValueOf(arg)
+			if argRv.Kind() == reflect.Map && argRv.Type() != rv.Type() {
+				sameType = false
+			}
+		}
+
+		if !sameType {
+			result := make(map[string]interface{}, rv.Len())
+			for _, key := range rv.MapKeys() {
+				result[toString(key.Interface())] = rv.MapIndex(key).Interface()
+			}
+			for _, arg := range args {
+				argRv := reflect.ValueOf(arg)
+				if argRv.Kind() == reflect.Map {
+					for _, key := range argRv.MapKeys() {
+						result[toString(key.Interface())] = argRv.MapIndex(key).Interface()
+					}
+				}
+			}
+			return result, nil
+		}
+
 		// Create a new map with the same key and value types
 		resultMap := reflect.MakeMap(rv.Type())
 
@@ -1785,7 +1802,8 @@ func (e *CoreExtension) filterSort(value interface{}, args ...interface{}) (inte
 	// Try reflection for other types
 	rv := reflect.ValueOf(value)
 	if rv.Kind() == reflect.Slice || rv.Kind() == reflect.Array {
-		result := reflect.MakeSlice(rv.Type(), rv.Len(), rv.Len())
+		// rv may be an array: build the result as a slice of its element type
+		result := reflect.MakeSlice(reflect.SliceOf(rv.Type().Elem()), rv.Len(), rv.Len())
 		for i := 0; i < rv.Len(); i++ {
 			result.Index(i).Set(rv.Index(i))
 		}
